@@ -32,6 +32,7 @@ def run(ck):
     progs, cov, nfaults, nontriv, audited = semcheck.check_all(ck, "C13", 120 if quick else 2000, faults_per_program=(12 if quick else 60),
                                                                tblgen_sample=(25 if quick else 400))
     semcheck.check_witnesses(ck, "C13")
+    semcheck.scope_leak_probes(ck, "C13")
     ck.count("generated", len(progs) + nfaults, nontriv if not nfaults else set(range(len(nontriv) + nfaults)),
              sample={"files": progs[0].files}, seeded_faults=nfaults,
              coverage=semcheck.cov_summary(cov, ["faultclass:", "fault:", "bang:", "decl:"]), llvm_tblgen_audit=audited)
